@@ -239,6 +239,23 @@ def valid_ssa(n, path):
     return len(live) == 1
 
 
+ORDERS = ["size", "neg-size", "min-leaf", "mixed", "surface_order"]
+
+
+def order_fn(key):
+    return {"size": len, "neg-size": (lambda node: -len(node)), "min-leaf": min,
+            "mixed": (lambda node: (sum(node) * 7 + len(node)) % 5)}.get(key, key)
+
+
+def ordered_paths(tree, n):
+    """`get_path / get_ssa_path(order=...)` of a returned tree: every admissible traversal order must give
+    a valid complete path as well (core.py:1481-1511, 2717-2800); which order is a function of the tree"""
+    key = ORDERS[(n + len(tree.children)) % len(ORDERS)]
+    return {"order": key,
+            "lin_ord": [[int(x) for x in s_] for s_ in tree.get_path(order=order_fn(key))],
+            "ssa_ord": [[int(x) for x in s_] for s_ in tree.get_ssa_path(order=order_fn(key))]}
+
+
 def dump_children(tree):
     return sorted([sorted(p), sorted(l), sorted(r)] for p, (l, r) in tree.children.items())
 
@@ -362,6 +379,49 @@ def net_class(net):
     return "1" if n == 1 else ("2" if n == 2 else ("3-10" if n <= 10 else "11+"))
 
 
+# ------------------------------------------------------------------------------ interface calls made in this process
+
+
+_DISPATCH_FIRST = {}    # (entry, container) -> "linear" | "edge": the first explicit flavour this process handed over
+
+
+def _note_dispatch(entry, optimize, n):
+    if entry == "tree" and n <= 2:
+        optimize = () if n == 1 else ((0, 1),)       # what array_contract_tree substitutes
+    if isinstance(optimize, (tuple, list)):
+        fl = "edge" if (len(optimize) and isinstance(optimize[0], (str, int))) else "linear"
+        _DISPATCH_FIRST.setdefault((entry, type(optimize).__name__), fl)
+
+
+def act(inputs, output, sd, optimize, **kw):
+    """array_contract_tree, remembering which flavour of explicit path each dispatch table saw first in
+    this process (find_tree / find_path memoise their handler per class of `optimize`)"""
+    _note_dispatch("tree", optimize, len(inputs))
+    return ctg.array_contract_tree(inputs, output, sd, optimize=optimize, **kw)
+
+
+def acp(inputs, output, sd, optimize, **kw):
+    _note_dispatch("path", optimize, len(inputs))
+    return ctg.array_contract_path(inputs, output, sd, optimize=optimize, **kw)
+
+
+def prime_dispatch(first):
+    """replay side: hand over the same flavours first, in a process that has dispatched nothing yet"""
+    inputs, output, sd = [("a", "b"), ("b", "c"), ("c", "d")], ("a", "d"), {"a": 2, "b": 2, "c": 2, "d": 2}
+    for entry, container, flavour in first or []:
+        seq = [(0, 1), (0, 1)] if flavour == "linear" else ["b", "c"]
+        opt = tuple(seq) if container == "tuple" else list(seq)
+        try:
+            with warnings.catch_warnings():
+                warnings.simplefilter("ignore")
+                if entry == "tree":
+                    ctg.array_contract_tree(inputs, output, sd, optimize=opt)
+                else:
+                    ctg.array_contract_path(inputs, output, sd, optimize=opt, cache=False)
+        except Exception:  # noqa: BLE001 -- only the state left behind matters
+            pass
+
+
 # ------------------------------------------------------------------------------ finders
 
 
@@ -388,6 +448,29 @@ def args_of(net):
     return net.sym_inputs(), net.sym_output(), net.sym_sizes()
 
 
+def iface_kwargs(net, opts):
+    """keyword arguments of array_contract_path / array_contract_tree for an option set:
+    `shapes` instead of `size_dict`, `canonicalize=False`, `sort_contraction_indices=True` (tree only)"""
+    inputs, output, sd = args_of(net)
+    kw = {}
+    if opts.get("shapes"):
+        kw["shapes"] = [tuple(sd[ix] for ix in t) for t in inputs]
+        sd = None
+    if opts.get("canonicalize") is False:
+        kw["canonicalize"] = False
+    if opts.get("sort"):
+        kw["sort_contraction_indices"] = True
+    return inputs, output, sd, kw
+
+
+def iface_call(entry, net, optimize, opts):
+    inputs, output, sd, kw = iface_kwargs(net, opts)
+    if entry == "path":
+        kw.pop("sort_contraction_indices", None)
+        return acp(inputs, output, sd, optimize, cache=bool(opts.get("cache")), **kw)
+    return act(inputs, output, sd, optimize, **kw)
+
+
 def finder_catalogue(rng, net):
     """list of (site, kind, label, thunk, params) to run on `net`; kind in {path, tree}"""
     inputs, output, sd = args_of(net)
@@ -396,31 +479,45 @@ def finder_catalogue(rng, net):
     for p in PRESETS:
         if p.startswith("optimal") and not small:
             continue        # exponential by design; C09 covers it
+        opts = {}
+        if rng.random() < 0.35:
+            opts = {"shapes": rng.random() < 0.5, "canonicalize": rng.random() < 0.5,
+                    "sort": rng.random() < 0.5, "cache": rng.random() < 0.3}
         out.append(("array_contract_path", "path", p,
-                    lambda p=p: ctg.array_contract_path(inputs, output, sd, optimize=p, cache=False), {}))
+                    lambda p=p, opts=opts: iface_call("path", net, p, opts), {"iface": opts} if opts else {}))
         out.append(("array_contract_tree", "tree", p,
-                    lambda p=p: ctg.array_contract_tree(inputs, output, sd, optimize=p), {}))
+                    lambda p=p, opts=opts: iface_call("tree", net, p, opts), {"iface": opts} if opts else {}))
     seed = rng.randrange(1 << 30)
     cm, tp = rng.uniform(0.1, 4.0), rng.choice([0.0, 0.0, rng.uniform(0.001, 1.0)])
-    out.append(("GreedyOptimizer", "path", "obj",
-                lambda: pb.GreedyOptimizer(costmod=cm, temperature=tp)(inputs, output, sd),
-                {"costmod": cm, "temperature": tp}))
+    simp = rng.random() < 0.7        # simplify=False: the finder works on the network as given
+    gp = {"costmod": cm, "temperature": tp, "simplify": simp}
+    out.append(("GreedyOptimizer", "path", "obj", lambda: pb.GreedyOptimizer(**gp)(inputs, output, sd), dict(gp)))
     out.append(("GreedyOptimizer.search", "tree", "obj",
-                lambda: pb.GreedyOptimizer(costmod=cm, temperature=tp).search(inputs, output, sd),
-                {"costmod": cm, "temperature": tp}))
+                lambda: pb.GreedyOptimizer(**gp).search(inputs, output, sd), dict(gp)))
+    ssa = rng.random() < 0.5
+    fp = {"costmod": cm, "temperature": tp, "simplify": rng.random() < 0.5, "use_ssa": ssa}
+    out.append(("optimize_greedy", "ssa" if ssa else "path", "fn",
+                lambda: pb.optimize_greedy(inputs, output, sd, **fp), dict(fp)))
     mz = rng.choice(["flops", "size", "write", "max", "combo", "limit", "combo-3"])
     so = rng.random() < 0.5
     if small:
+        op = {"minimize": mz, "search_outer": so, "simplify": rng.random() < 0.7,
+              "cost_cap": rng.choice([2, 2, 1, 4])}
         out.append(("OptimalOptimizer", "path", "obj",
-                    lambda: pb.OptimalOptimizer(minimize=mz, search_outer=so)(inputs, output, sd),
-                    {"minimize": mz, "search_outer": so}))
+                    lambda: pb.OptimalOptimizer(**op)(inputs, output, sd), dict(op)))
+        ssa2 = rng.random() < 0.5
+        op2 = {"minimize": mz, "search_outer": so, "simplify": rng.random() < 0.5, "use_ssa": ssa2}
+        out.append(("optimize_optimal", "ssa" if ssa2 else "path", "fn",
+                    lambda: pb.optimize_optimal(inputs, output, sd, **op2), dict(op2)))
     reps = rng.choice([1, 2, 8])
+    rp = {"max_repeats": reps, "seed": seed, "simplify": rng.random() < 0.7}
+    if rng.random() < 0.3:
+        rp["costmod"] = (0.5, rng.uniform(0.6, 3.0))
+        rp["temperature"] = (0.01, rng.uniform(0.02, 0.5))
     out.append(("RandomGreedyOptimizer", "path", "obj",
-                lambda: pb.RandomGreedyOptimizer(max_repeats=reps, seed=seed, parallel=False)(inputs, output, sd),
-                {"max_repeats": reps, "seed": seed}))
+                lambda: pb.RandomGreedyOptimizer(parallel=False, **rp)(inputs, output, sd), dict(rp)))
     out.append(("RandomGreedyOptimizer.search", "tree", "obj",
-                lambda: pb.RandomGreedyOptimizer(max_repeats=reps, seed=seed, parallel=False)
-                .search(inputs, output, sd), {"max_repeats": reps, "seed": seed}))
+                lambda: pb.RandomGreedyOptimizer(parallel=False, **rp).search(inputs, output, sd), dict(rp)))
     out.append(("RandomOptimizer", "path", "obj",
                 lambda: ctg.pathfinders.path_random.RandomOptimizer(seed=seed)(inputs, output, sd),
                 {"seed": seed}))
@@ -440,16 +537,19 @@ def run_finder(ctx, drv, net, netname, site, kind, label, thunk, params, case_ex
     if hkey in _HANGS:
         ctx.count("skipped_after_hang:%s/%s" % (site, label))
         return None
+    first_before = [[e, c, f] for (e, c), f in _DISPATCH_FIRST.items()]
+
     def produce():
         val = thunk()
-        if kind == "path":
-            return {"path": [[int(x) for x in s_] for s_ in val]}
+        if kind in ("path", "ssa"):
+            return {"path": [c05_sessions._jsonable_step(s_) for s_ in val]}
         tree = val
         out = {"children": dump_children(tree), "N": int(getattr(tree, "N", -1)), "nested": None}
         if tree_ok(n, out["children"]):
             out["lin"] = [[int(x) for x in s_] for s_ in tree.get_path()]
             out["ssa"] = [[int(x) for x in s_] for s_ in tree.get_ssa_path()]
             out["nested"] = gen.bt_of_real(tree)
+            out.update(ordered_paths(tree, n))
         return out
 
     if "kahypar" in label:
@@ -462,6 +562,8 @@ def run_finder(ctx, drv, net, netname, site, kind, label, thunk, params, case_ex
     case = {"net": net.json(), "site": site, "label": label, "params": params, "kind": kind}
     if case_extra:
         case.update(case_extra)
+    if first_before and (site.startswith(("array_contract", "explicit-")) or site == "sequence"):
+        case["dispatch_first"] = first_before
     return judge(ctx, drv, net, netname, site, kind, label, status, val, case)
 
 
@@ -488,6 +590,19 @@ def judge(ctx, drv, net, netname, site, kind, label, status, val, case, sig_extr
                       "%s(%s) on %s (%d tensors): %s %s" % (site, label, netname, n, status, val))
         return None
     ctx.count("outcome:ok")
+    if kind == "ssa":
+        path = val["path"]
+        if not valid_ssa(n, path):
+            sig["error"] = "invalid-path"
+            ctx.violation(sig, {"case": case, "observed": path},
+                          "%s(%s): returned ssa path is not a complete valid contraction of the %d inputs"
+                          % (site, label, n))
+            return None
+        r = drv.call("c05.check_ssa", n=n, path=path)
+        ctx.traces += 1
+        if r.get("complete") is not True:
+            ctx.corr_broken("Lean checkSSA rejects a path the independent oracle accepts", case)
+        return val
     if kind == "path":
         path = val["path"]
         ok = valid_linear(n, path)
@@ -506,6 +621,12 @@ def judge(ctx, drv, net, netname, site, kind, label, status, val, case, sig_extr
     ok = tree_ok(n, children) and val["N"] == n
     lin, ssa = val.get("lin"), val.get("ssa")
     paths_ok = ok and valid_linear(n, lin) and valid_ssa(n, ssa)
+    if paths_ok and "lin_ord" in val:
+        ctx.count("tree_order:" + str(val.get("order")))
+        if not (valid_linear(n, val["lin_ord"]) and valid_ssa(n, val["ssa_ord"])):
+            paths_ok = False
+            lin, ssa = val["lin_ord"], val["ssa_ord"]
+            sig["order"] = val.get("order")
     if not ok or not paths_ok:
         sig["error"] = "incomplete-tree" if not ok else "invalid-path-of-tree"
         ctx.violation(sig, {"case": case, "observed": {"children": children, "path": lin, "ssa": ssa}},
@@ -515,6 +636,9 @@ def judge(ctx, drv, net, netname, site, kind, label, status, val, case, sig_extr
     r1 = drv.call("c05.check_linear", n=n, path=lin)
     r2 = drv.call("c05.check_ssa", n=n, path=ssa)
     ctx.traces += 1
+    if "lin_ord" in val and r1.get("complete") is True and r2.get("complete") is True:
+        r1 = drv.call("c05.check_linear", n=n, path=val["lin_ord"])
+        r2 = drv.call("c05.check_ssa", n=n, path=val["ssa_ord"])
     if r.get("complete") is not True or r1.get("complete") is not True or r2.get("complete") is not True:
         ctx.corr_broken("Lean checkers reject a tree / path the independent oracles accept", case)
     return val
@@ -566,8 +690,9 @@ def check_explicit(ctx, drv, net, netname, rng):
         if not ep:
             return
         run_finder(ctx, drv, net, netname, "explicit-edge-path", "tree", "tree",
-                   lambda: ctg.array_contract_tree(inputs, output, sd, optimize=ep), {"edge_path": list(ep)})
-        st, path = guarded(lambda: ctg.array_contract_path(inputs, output, sd, optimize=ep, cache=False))
+                   lambda: act(inputs, output, sd, ep), {"edge_path": list(ep)})
+        first_before = [[e, c, f] for (e, c), f in _DISPATCH_FIRST.items()]
+        st, path = guarded(lambda: acp(inputs, output, sd, ep, cache=False))
         if st == "ok":
             # an edge path may legitimately stop early: it must replay, and from_path completes it
             path = [[int(x) for x in s] for s in path]
@@ -576,7 +701,8 @@ def check_explicit(ctx, drv, net, netname, rng):
                 ctx.violation({"site": "explicit-edge-path", "label": "path", "ntensors": net_class(net),
                                "error": "invalid-path"},
                               {"case": {"net": net.json(), "site": "explicit-edge-path", "label": "path",
-                                        "params": {"edge_path": list(ep)}}, "observed": path},
+                                        "params": {"edge_path": list(ep)}, "kind": "path-partial",
+                                        "dispatch_first": first_before}, "observed": path},
                               "edge path converts to a linear path naming a position that does not exist")
         return
     if flavour == "malformed":
@@ -623,11 +749,10 @@ def check_explicit(ctx, drv, net, netname, rng):
     if not ssa and not partial and all(len(s) == 2 for s in path):
         # the public route for explicit linear paths
         run_finder(ctx, drv, net, netname, "explicit-linear-path", "tree", "tree",
-                   lambda: ctg.array_contract_tree(inputs, output, sd, optimize=[tuple(s) for s in path]),
+                   lambda: act(inputs, output, sd, [tuple(s) for s in path]),
                    {"path": path})
         run_finder(ctx, drv, net, netname, "explicit-linear-path", "path", "path",
-                   lambda: ctg.array_contract_path(inputs, output, sd, optimize=[tuple(s) for s in path],
-                                                   cache=False), {"path": path})
+                   lambda: acp(inputs, output, sd, [tuple(s) for s in path], cache=False), {"path": path})
 
 
 # ------------------------------------------------------------------------------ processor (E)
@@ -823,15 +948,21 @@ def check_builders(ctx, drv, rng):
     builder = ccore.PartitionTreeBuilder(fn)
     which = rng.choice(["divide", "agglom"])
     ctx.count("builder:%s/%s" % (which, style))
+    sub = rng.choice(["greedy", "greedy", "auto", "optimal", "auto-hq"])
+    seed = rng.choice([None, 1, rng.randrange(1 << 20)])
     if which == "divide":
         cutoff = rng.choice([0, 1, 2, 3, 10])
         parts = rng.randint(2, 6)
-        thunk = lambda: builder.build_divide(*args_of(net), cutoff=cutoff, parts=parts, seed=1)  # noqa: E731
-        params = {"cutoff": cutoff, "parts": parts, "partitioner": style}
+        sup = rng.choice(["auto-hq", "auto-hq", "greedy", "auto", "optimal"])
+        extra = {"sub_optimize": sub, "super_optimize": sup, "seed": seed,
+                 "parts_decay": rng.choice([0.5, 0.0, 1.0]), "random_strength": rng.choice([0.01, 0.0, 0.5])}
+        thunk = lambda: builder.build_divide(*args_of(net), cutoff=cutoff, parts=parts, **extra)  # noqa: E731
+        params = dict({"cutoff": cutoff, "parts": parts, "partitioner": style}, **extra)
     else:
-        groupsize = rng.choice([1, 2, 3, 4])
-        thunk = lambda: builder.build_agglom(*args_of(net), groupsize=groupsize)  # noqa: E731
-        params = {"groupsize": groupsize, "partitioner": style}
+        groupsize = rng.choice([1, 2, 3, 4, 6])
+        extra = {"sub_optimize": sub, "seed": seed, "random_strength": rng.choice([0.01, 0.0, 0.5])}
+        thunk = lambda: builder.build_agglom(*args_of(net), groupsize=groupsize, **extra)  # noqa: E731
+        params = dict({"groupsize": groupsize, "partitioner": style}, **extra)
     tree = run_finder(ctx, drv, net, "adversarial", "PartitionTreeBuilder." + which, "tree", style, thunk,
                       params, case_extra={"builder": which})
     if which == "divide" and tree is not None:
@@ -856,6 +987,24 @@ def check_builders(ctx, drv, rng):
             ctx.corr_broken("build_agglom fails where the model of the loop terminates", params)
         else:
             ctx.count("agglom:hang-reproduced-in-model-and-code")
+
+
+def check_labels_options(ctx, drv, rng):
+    """`labels_partition` options the registered search space leaves at their default (weight_nodes,
+    maxiter, parts) through the builder object the 'labels' methods are made of"""
+    from cotengra.pathfinders import path_labels as pl
+    net = medium_net(rng, 5, 16) if rng.random() < 0.7 else gen.rand_net(rng, nmin=2, nmax=8)
+    opts = {"weight_nodes": rng.choice(["const", "linear", "log"]), "weight_edges": rng.choice(["const", "log"]),
+            "maxiter": rng.choice([None, 0, 1, 3, 50]), "memory": rng.choice([-2, -1, 0, 1]),
+            "final_sweep": rng.random() < 0.5}
+    which = rng.choice(["divide", "agglom"])
+    if which == "divide":
+        opts.update({"cutoff": rng.choice([0, 2, 10]), "parts": rng.randint(1, 6)})
+        thunk = lambda: pl.labels_to_tree.build_divide(*args_of(net), seed=7, **opts)  # noqa: E731
+    else:
+        opts.update({"groupsize": rng.choice([2, 4])})
+        thunk = lambda: pl.labels_to_tree.build_agglom(*args_of(net), seed=7, **opts)  # noqa: E731
+    run_finder(ctx, drv, net, "labels-options", "labels_to_tree." + which, "tree", "labels", thunk, opts)
 
 
 # ------------------------------------------------------------------------------ sequences of related networks
@@ -918,8 +1067,8 @@ SEQ_ROUTES = ["auto", "auto-hq", "greedy", "ReusableHyperOptimizer", "ReusableRa
 def make_route(route, seed):
     """-> (path_fn(net), tree_fn(net)) sharing whatever state the route keeps between calls"""
     if route in ("auto", "auto-hq", "greedy"):
-        return (lambda net: ctg.array_contract_path(*args_of(net), optimize=route),
-                lambda net: ctg.array_contract_tree(*args_of(net), optimize=route))
+        return (lambda net: acp(*args_of(net), route),
+                lambda net: act(*args_of(net), route))
     if route == "ReusableHyperOptimizer":
         opt = ctg.ReusableHyperOptimizer(methods=["greedy"], max_repeats=2, parallel=False, optlib="random",
                                          progbar=False)
@@ -1113,7 +1262,8 @@ def record_ok(call, rec):
     if call["entry"] == "path":
         return valid_linear(n, v["path"], partial=bool(call.get("partial_ok")))
     return bool(tree_ok(n, v["children"]) and v["N"] == n and valid_linear(n, v.get("lin"))
-                and valid_ssa(n, v.get("ssa")))
+                and valid_ssa(n, v.get("ssa")) and valid_linear(n, v.get("lin_ord", v.get("lin")))
+                and valid_ssa(n, v.get("ssa_ord", v.get("ssa"))))
 
 
 def run_session(ctx, drv, label, calls, skind):
@@ -1375,6 +1525,10 @@ def run(ctx, drv):
         if ctx.time_left() < 20:
             break
         check_builders(ctx, drv, rng)
+    for _ in range(120 if quick else 1200):
+        if ctx.time_left() < 20:
+            break
+        check_labels_options(ctx, drv, rng)
     for _ in range(60 if quick else 600):
         if ctx.time_left() < 20:
             break
@@ -1391,15 +1545,21 @@ def _rebuild(case):
     inputs, output, sd = args_of(net)
     site, label, params = case["site"], case["label"], case.get("params", {})
     if site == "array_contract_path":
-        return net, "path", lambda: ctg.array_contract_path(inputs, output, sd, optimize=label, cache=False)
+        return net, "path", lambda: iface_call("path", net, label, params.get("iface") or {})
     if site == "array_contract_tree":
-        return net, "tree", lambda: ctg.array_contract_tree(inputs, output, sd, optimize=label)
+        return net, "tree", lambda: iface_call("tree", net, label, params.get("iface") or {})
+    if site in ("optimize_greedy", "optimize_optimal"):
+        fn = getattr(pb, site)
+        pr = {k: (tuple(v) if isinstance(v, list) else v) for k, v in params.items()}
+        return net, ("ssa" if params.get("use_ssa") else "path"), lambda: fn(inputs, output, sd, **pr)
     if site == "hyper_function":
         return net, "tree", lambda: chyper.base_trial_fn(inputs, output, sd, label, **dict(params))["tree"]
     if site == "HyperOptimizer.search":
         return net, "tree", lambda: ctg.HyperOptimizer(
             methods=[label], max_repeats=params.get("max_repeats", 1), optlib=params.get("optlib", "random"),
             parallel=False, progbar=False, on_trial_error="raise").search(inputs, output, sd)
+    if site.startswith("RandomGreedyOptimizer"):
+        params = {k: (tuple(v) if isinstance(v, list) else v) for k, v in params.items()}
     if site == "RandomGreedyOptimizer":
         return net, "path", lambda: pb.RandomGreedyOptimizer(parallel=False, **params)(inputs, output, sd)
     if site == "RandomGreedyOptimizer.search":
@@ -1423,6 +1583,8 @@ def _rebuild(case):
         return net, "path", lambda: ctg.array_contract_path(inputs, output, sd, optimize=p, cache=False)
     if site == "explicit-edge-path":
         ep = tuple(params["edge_path"])
+        if label == "path":
+            return net, "path", lambda: ctg.array_contract_path(inputs, output, sd, optimize=ep, cache=False)
         return net, "tree", lambda: ctg.array_contract_tree(inputs, output, sd, optimize=ep)
     if site == "sequence":
         route = case.get("route", label)
@@ -1439,6 +1601,10 @@ def _rebuild(case):
                     pass
             return (path_fn if case.get("kind", "path") == "path" else tree_fn)(net)
         return net, case.get("kind", "path"), thunk
+    if site.startswith("labels_to_tree."):
+        from cotengra.pathfinders import path_labels as pl
+        fn = pl.labels_to_tree.build_divide if site.endswith("divide") else pl.labels_to_tree.build_agglom
+        return net, "tree", lambda: fn(inputs, output, sd, seed=7, **params)
     if site.startswith("PartitionTreeBuilder."):
         style = params["partitioner"]
         import random as _r
@@ -1449,10 +1615,15 @@ def _rebuild(case):
             return {"one": [7] * nv, "identity": list(range(nv)), "two": [i % 2 for i in range(nv)]}.get(
                 style, [rng.randrange(max(1, parts)) for _ in range(nv)])
         b = ccore.PartitionTreeBuilder(fn)
+        extra = {k: params[k] for k in ("sub_optimize", "super_optimize", "parts_decay", "random_strength")
+                 if k in params}
+        extra["seed"] = params.get("seed", 1)
         if site.endswith("divide"):
             return net, "tree", lambda: b.build_divide(inputs, output, sd, cutoff=params["cutoff"],
-                                                       parts=params["parts"], seed=1)
-        return net, "tree", lambda: b.build_agglom(inputs, output, sd, groupsize=params["groupsize"])
+                                                       parts=params["parts"], **extra)
+        extra.pop("super_optimize", None)
+        extra.pop("parts_decay", None)
+        return net, "tree", lambda: b.build_agglom(inputs, output, sd, groupsize=params["groupsize"], **extra)
     raise KeyError(site)
 
 
@@ -1495,13 +1666,20 @@ def replay(ctx, obj):
         print("# replay: unknown site", case.get("site"))
         return True
     n = len(net.inputs)
+    prime_dispatch(case.get("dispatch_first"))
 
     def produce():
         val = thunk()
+        if kind == "ssa":
+            return valid_ssa(n, [c05_sessions._jsonable_step(s_) for s_ in val])
         if kind == "path":
-            return valid_linear(n, [[int(x) for x in s_] for s_ in val])
+            return valid_linear(n, [c05_sessions._jsonable_step(s_) for s_ in val],
+                                partial=(case.get("kind") == "path-partial"))
         ch = dump_children(val)
-        return bool(tree_ok(n, ch) and valid_linear(n, [list(map(int, s_)) for s_ in val.get_path()]))
+        if not (tree_ok(n, ch) and valid_linear(n, [list(map(int, s_)) for s_ in val.get_path()])):
+            return False
+        o = ordered_paths(val, n)
+        return bool(valid_linear(n, o["lin_ord"]) and valid_ssa(n, o["ssa_ord"]))
     # finders drawing from an unseeded generator are tried repeatedly: one failure fails the property
     unseeded = case.get("label") == "random" or case.get("site") in ("HyperOptimizer.search", "hyper_function")
     for _ in range(25 if unseeded else 1):
